@@ -930,6 +930,12 @@ VARIANTS = [
     ("C14", None, "twin: depth and width taken from the validated copy by key",
      rep_in(FHS, "__init__", "            self.depth = prop_store_depth\n            self.width = prop_store_width\n",
             "            self.depth = checked_properties[\"store_depth\"]\n            self.width = checked_properties[\"store_width\"]\n")),
+    ("C12", None, "twin: a stale marker is removed under contextlib.suppress(OSError)",
+     chain(rep_in(FHS, "_rename_path_for_deletion", '        delete_path = path.with_name(path.stem + "_delete" + path.suffix)\n        shutil.move(path, delete_path)\n', '        delete_path = path.with_name(path.stem + "_delete" + path.suffix)\n        with contextlib.suppress(OSError):\n            os.remove(delete_path)\n        shutil.move(path, delete_path)\n'), rep(FHS, "import atexit\n", "import atexit\nimport contextlib\n"))),
+    ("C12", None, "twin: a stale marker is removed with unlink(missing_ok=True)",
+     rep_in(FHS, "_rename_path_for_deletion", '        delete_path = path.with_name(path.stem + "_delete" + path.suffix)\n        shutil.move(path, delete_path)\n', '        delete_path = path.with_name(path.stem + "_delete" + path.suffix)\n        delete_path.unlink(missing_ok=True)\n        shutil.move(path, delete_path)\n')),
+    ("C10", None, "twin: the lines kept are de-duplicated in the order read (dict.fromkeys)",
+     rep_in(FHS, "_update_refs_file", '                    new_pid_lines = [\n                        cid_pid_line\n                        for cid_pid_line in ref_file.readlines()\n                        if cid_pid_line.strip() != ref_id\n                    ]\n', '                    new_pid_lines = list(dict.fromkeys(\n                        cid_pid_line\n                        for cid_pid_line in ref_file.readlines()\n                        if cid_pid_line.strip() != ref_id\n                    ))\n')),
     ("C13", "C13.h", "return inside finally swallows the error",
      rep_in(FHS, "_delete_object_only", "        finally:\n            self._release_object_locked_cids(cid)\n", "        finally:\n            self._release_object_locked_cids(cid)\n            return\n")),
 ]
